@@ -17,6 +17,11 @@ let handle (line : ostr) : ostr =
     Printf.sprintf "total=%s spec=%d wf=%b fields=%s specfields=%s"
       (res_out (fun z -> string_of_int (int_of_z z)) (stmt_cx dov_W s))
       (int_of_z (dov_total s)) (dov_wf_stmt s) (OS.concat "," fields) (OS.concat "," specfields)
+  | ["vis"; flags; tree] ->
+    let s = stmt_of_string tree in
+    let b i = flags.[i] = '1' in
+    let o = { o_flat = b 0; o_bin = b 1; o_anno = b 2; o_dov = b 3; o_actop = b 4 } in
+    res_out hex_of_bytes (vis_print vis_T o (vis_fuel s) s)
   | ["echo"; tree] -> wstmt (stmt_of_string tree)
   | m :: _ -> "bad:unknown mode " ^ m
   | [] -> "bad:empty"
